@@ -68,6 +68,8 @@ def _ghost(cfg, c):
 
 
 class _Helper(Case):
+  public = False
+  lift_case = 'finalize'
 
   def setup(self, cfg, c):
     _ghost(cfg, c)
@@ -138,6 +140,7 @@ def _constraint_kwargs(cfg, lo, hi):
 
 class ConstraintCallCase(Case):
   contract_key = 'lattice_layer.LatticeConstraints.__call__'
+  lift_keep_stubs = ('lattice_lib.project_by_dykstra',)
 
   def build(self, cfg):
     ly = load.mod('lattice_layer')
@@ -190,6 +193,7 @@ class LatticeFinalize(H.Contract):
 class LayerFinalizeCase(Case):
   contract_key = 'lattice_layer.Lattice.finalize_constraints'
   stub_only = ('lattice_layer.LatticeConstraints.__call__',)
+  lift_keep_stubs = ('lattice_lib.project_by_dykstra',)
 
   def build(self, cfg):
     ly = load.mod('lattice_layer')
